@@ -140,50 +140,50 @@ def check(ck):
                     "user_agent": K("configured-agent")})
             ev = shape.Evaluator(prog, "jsonrpc", lenient=True, stubs={"utils.to_bytes": lambda *a, **k: a[0]})
             res = ev.run(fsend, {"connection": conn, "request_body": K(b'{"a": 1}')}, mk)
-            # undecided tests (a logger's isEnabledFor ...) fork the evaluation: every outcome must emit the same headers
+            # undecided tests (a logger's isEnabledFor, a new option of the transport ...) fork the evaluation: every outcome is judged
             per_run = [[c for c in cl_ if c[0] == "connection" and c[1] == "putheader"] for cl_ in getattr(ev, "calls_per_result", [])]
-            forked_same = len(res) > 1 and all(r_[1][0] == "return" for r_ in res) and all(repr(x) == repr(per_run[0]) for x in per_run[1:])
-            if forked_same:
-                res = res[:1]
-            calls = per_run[0] if per_run else []
-            emitted = []
-            for c in calls:
+            n2 += 1
+            problems = []
+            if not res or len(per_run) != len(res):
+                problems.append("send_content does not complete (%r)" % ((res[0][1][:2] if res else None),))
+            for (r_one, calls) in zip(res, per_run):
+              if r_one[1][0] != "return":
+                problems.append("send_content does not complete (%r)" % (r_one[1][:2],))
+                continue
+              emitted = []
+              for c in calls:
                 a = c[2]
                 if len(a) < 2:
                     emitted.append((a[0].v if a and isinstance(a[0], K) else repr(a), "<no value>"))
                     continue
                 emitted.append((a[0].v if isinstance(a[0], K) else repr(a[0]), a[1].v if isinstance(a[1], K) else repr(a[1])))
-            n2 += 1
-            problems = []
-            if len(res) != 1 or res[0][1][0] != "return":
-                problems.append("send_content does not complete (%r)" % ((res[0][1][:2] if res else None),))
-            # the message's headers as a multiset, whatever their order (the property orders nothing): one Content-Type (the
-            # configured one) and one Content-Length (the byte length), one header per pushed name with the most recent value, one
-            # User-Agent (pushed, else configured), no name twice; further default headers the stack does not name are the library's own
-            by_name = {}
-            for (k, v) in emitted:
-                by_name.setdefault(str(k).lower(), []).append((k, v))
-            for nm_, val_, what in (("content-type", "application/json-rpc", "Content-Type from the configuration"),
-                                    ("content-length", "8", "Content-Length = byte length 8")):
-                got = [v for (_k, v) in by_name.get(nm_, [])]
-                if got != [val_]:
-                    problems.append("%s is emitted as %r (required exactly once: %s)" % (nm_, got, what))
-            ua = [v for (_k, v) in by_name.get("user-agent", [])]
-            if "user-agent" in want:
-                if ua != [want["user-agent"]]:
-                    problems.append("User-Agent emitted as %r although the stack defines %r" % (ua, want["user-agent"]))
-            else:
-                if ua != ["configured-agent"]:
-                    problems.append("without a pushed User-Agent the configured one must be sent exactly once, got %r" % (ua,))
-            twice = sorted(k for k, vs in by_name.items() if len(vs) > 1)
-            if twice:
-                problems.append("a header name is emitted twice: %r" % ([by_name[k] for k in twice],))
-            for k_, v_ in want.items():
-                if k_ == "user-agent":
-                    continue
-                got = [v for (_k, v) in by_name.get(k_, [])]
-                if got != [v_]:
-                    problems.append("pushed header %s is emitted as %r, required %r" % (k_, got, v_))
+              # the message's headers as a multiset, whatever their order (the property orders nothing): one Content-Type (the
+              # configured one) and one Content-Length (the byte length), one header per pushed name with the most recent value, one
+              # User-Agent (pushed, else configured), no name twice; further default headers the stack does not name are the library's own
+              by_name = {}
+              for (k, v) in emitted:
+                  by_name.setdefault(str(k).lower(), []).append((k, v))
+              for nm_, val_, what in (("content-type", "application/json-rpc", "Content-Type from the configuration"),
+                                      ("content-length", "8", "Content-Length = byte length 8")):
+                  got = [v for (_k, v) in by_name.get(nm_, [])]
+                  if got != [val_]:
+                      problems.append("%s is emitted as %r (required exactly once: %s)" % (nm_, got, what))
+              ua = [v for (_k, v) in by_name.get("user-agent", [])]
+              if "user-agent" in want:
+                  if ua != [want["user-agent"]]:
+                      problems.append("User-Agent emitted as %r although the stack defines %r" % (ua, want["user-agent"]))
+              else:
+                  if ua != ["configured-agent"]:
+                      problems.append("without a pushed User-Agent the configured one must be sent exactly once, got %r" % (ua,))
+              twice = sorted(k for k, vs in by_name.items() if len(vs) > 1)
+              if twice:
+                  problems.append("a header name is emitted twice: %r" % ([by_name[k] for k in twice],))
+              for k_, v_ in want.items():
+                  if k_ == "user-agent":
+                      continue
+                  got = [v for (_k, v) in by_name.get(k_, [])]
+                  if got != [v_]:
+                      problems.append("pushed header %s is emitted as %r, required %r" % (k_, got, v_))
             ck.require(not problems, "C18.2", "jsonrpc.TransportMixIn.send_content: stack %s" % label, "emits %r" % (sorted(want.items()),),
                        "for the header stack '%s' (%r + %r): %s" % (label, extra, stack, "; ".join(problems)), q.loc(fe, fe.node))
     ck.floor("C18.2", 10)
